@@ -320,6 +320,39 @@ impl Prop for C05 {
         let n = v.len();
         vec![("nested-extreme-bounds".into(), format!("{n} patterns x(?:B{{inner}}){{outer}}y: bodies a, (a), ab x 15 extreme values x 3 inner forms x 15 x 5 outer forms, on 4 inputs"), Box::new(v.into_iter()))]
     }
+    fn extra(&self, ctx: &mut Ctx) -> Vec<(String, Verdict, Option<StrCase>)> {
+        // thorough tier: coverage-guided campaign; every crash / oom artifact is re-judged through the worker path
+        if ctx.tier != Tier::Thorough {
+            return vec![];
+        }
+        let seed = std::env::var("VERIF_SEED").ok().and_then(|s| s.parse().ok()).unwrap_or(0u64);
+        let seeds: Vec<StrCase> = std::fs::read_dir(verif_dir().join("corpus").join("C05"))
+            .map(|rd| rd.filter_map(|e| e.ok()).filter_map(|e| std::fs::read_to_string(e.path()).ok()).filter_map(|t| serde_json::from_str::<Value>(&t).ok()).filter_map(|v| serde_json::from_value(v["case"].clone()).ok()).collect())
+            .unwrap_or_default();
+        let c = crate::fuzzrun::Campaign { runs_per_job: 250_000, jobs: 12, timeout_s: 25, seed };
+        match crate::fuzzrun::run(&c, &seeds) {
+            Err(e) => {
+                eprintln!("harness error: fuzz campaign: {e}");
+                std::process::exit(2)
+            }
+            Ok((found, execs)) => {
+                ctx.obs.label(&format!("libfuzzer:executions={execs}"));
+                ctx.obs.label(&format!("libfuzzer:artifacts={}", found.len()));
+                ctx.obs.eval(execs);
+                let mut out = vec![];
+                for f in found {
+                    if f.kind == "timeout" {
+                        continue; // C06's business
+                    }
+                    if let Verdict::Fail(fl) = check_no_panic(&f.case, ctx) {
+                        out.push((format!("libfuzzer-{}", f.kind), Verdict::Fail(Failure { detail: format!("{} (found by libFuzzer, re-judged through the worker)", fl.detail), ..fl }), Some(f.case.clone())));
+                        break;
+                    }
+                }
+                out
+            }
+        }
+    }
     fn check(&self, case: &StrCase, ctx: &mut Ctx) -> Verdict {
         check_no_panic(case, ctx)
     }
